@@ -109,7 +109,11 @@ def sample_events(events, k=6):
 
 def models_for(names, tier):
     res = []
-    for (module, cfg, workers, timeout) in names:
+    for item in names:
+        if isinstance(item, dict):
+            res.append(item)
+            continue
+        (module, cfg, workers, timeout) = item
         m = vlib.run_model(module, cfg, workers=workers, timeout=timeout)
         log("[model] %s/%s: %d states, %d transitions, ok=%s, %.1fs" % (module, cfg, m["states"], m["transitions"], m["ok"], m["wall"]))
         res.append(m)
@@ -1004,9 +1008,143 @@ def plan_C14(tier, rng):
     return cs, models, {"input_families": cs.tags, "configurations": cfgs}
 
 
+# ================================================================================================
+# C12 / C13: the grammar, driven by the per-transition witnesses of the explored automaton
+
+import witness as _witness
+
+
+def fmt_tags():
+    return {f["id"]: f for f in vlib.load_formats()}
+
+
+def opts_for_fmt(f):
+    """parse options for a catalogue format: exponent character that is not a digit of the radix"""
+    r = 10
+    for (n, a) in f["calls"]:
+        if n in ("from_radix", "mantissa_radix", "radix"):
+            r = a
+    return pf(exp=exp_char(r))
+
+
+def grammar_plan(tier, rng, want_tag, prop):
+    cs = Cases()
+    quick = tier == "quick"
+    W, model = _witness.scan_witnesses()
+    F = fmt_tags()
+    sel = [w for w in W if w["f"] == 0 or want_tag in F[w["f"]]["tags"]]
+    if want_tag == "syntax":
+        sel = [w for w in sel if "sep" not in F[w["f"]]["tags"]]
+    if quick:
+        short = [w for w in sel if len(w["s"]) <= 3]
+        longer = [w for w in sel if len(w["s"]) > 3]
+        sel = short + rng.sample(longer, min(len(longer), 45000))
+    cfgs_all = ["rf"] if quick else ["rf", "crf"]
+    i = 0
+    byfmt = {}
+    for w in sel:
+        byfmt.setdefault((w["f"], w["k"]), []).append(w["s"])
+    for (fid, kind), strs in sorted(byfmt.items()):
+        f = F[fid]
+        o = opts_for_fmt(f)
+        ep = cs.new_ep()
+        for sbytes in strs:
+            i += 1
+            if i % 50 == 0:
+                ep = cs.new_ep()
+            c = [cfgs_all[i % len(cfgs_all)]]
+            if kind == "float":
+                ty = "f32" if i % 4 == 0 else "f64"
+                cs.parse(ep, ty, fid, sbytes, c, wo=True, opts=o, tag=want_tag + "-float")
+                if i % 5 == 0:
+                    cs.parse(ep, ty, fid, sbytes, c, wo=True, opts=o, partial=True)
+            else:
+                ty = "u64" if i % 3 == 0 else "i32"
+                cs.parse(ep, ty, fid, sbytes, c, wo=True, opts=dict(PI_DEFAULT), tag=want_tag + "-int")
+                if i % 5 == 0:
+                    cs.parse(ep, ty, fid, sbytes, c, wo=True, opts=dict(PI_DEFAULT), partial=True)
+            if want_tag == "sep" and f["id"] != 0 and not any(b == 95 or b == 39 for b in sbytes) and i % 2 == 0:
+                # the same separator-free input under the separator-free counterpart (STANDARD)
+                if not any(n in ("from_radix", "required_digits", "no_special") for (n, a) in f["calls"]):
+                    if kind == "float":
+                        cs.parse(ep, ty, 0, sbytes, c, wo=True, opts=o, tag="sep-free-counterpart")
+                    else:
+                        cs.parse(ep, ty, 0, sbytes, c, wo=True, opts=dict(PI_DEFAULT))
+    return cs, model, F
+
+
+def plan_C12(tier, rng):
+    cs, model, F = grammar_plan(tier, rng, "syntax", "C12")
+    # the documented examples themselves
+    docs = [json.loads(l) for l in open(os.path.join(vlib.HARNESS, "docs.ndjson"))]
+    byc = {json.dumps(f["calls"]): f["id"] for f in F.values()}
+    n = 0
+    ep = cs.new_ep()
+    for d in docs:
+        key = json.dumps(d["calls"])
+        if key in byc and d["optradix"] == 10:
+            n += 1
+            isf = d["ty"] in ("f32", "f64")
+            cs.parse(ep, d["ty"] if isf else "i32", byc[key], d["in"], ["rf"], wo=True, opts=pf() if isf else dict(PI_DEFAULT), tag="documented-example")
+    # STANDARD = Rust's FromStr grammar: all strings up to length 4 (5 in thorough) over the number alphabet, with std as referee
+    import itertools
+    alpha = [48, 49, 43, 45, 46, 101, 69, 110, 105, 32]
+    ep = cs.new_ep()
+    k = 0
+    for L in range(0, 5 if tier == "quick" else 6):
+        for tup in itertools.product(alpha, repeat=L):
+            k += 1
+            if tier == "quick" and L == 4 and k % 3:
+                continue
+            if k % 60 == 0:
+                ep = cs.new_ep()
+            cs.parse(ep, "f64", 0, list(tup), ["default" if k % 2 else "rf"], std=True, tag="standard-all-strings")
+            if k % 4 == 0:
+                cs.parse(ep, "i32", 0, list(tup), ["default" if k % 2 else "rf"], std=True)
+    return cs, [model, ("MC_Docs.tla", "MC_Docs.cfg", 1, 300)], {"input_families": cs.tags, "configurations": ["rf", "default"],
+                                                                  "documented_examples_replayed": n}
+
+
+def plan_C13(tier, rng):
+    cs, model, F = grammar_plan(tier, rng, "sep", "C13")
+    quick = tier == "quick"
+    # long components with separators: multi-digit (>= 8) and big-integer (>= 20 digit) paths
+    sepf = [f for f in F.values() if "sep" in f["tags"]]
+    i = 0
+    for f in sepf:
+        sepc = 39 if f["name"] == "sep_apostrophe" else 95
+        hexa = "hex" in f["tags"]
+        o = opts_for_fmt(f)
+        digs = "0123456789abcdefABCDEF" if hexa else "0123456789"
+        for _ in range(6 if quick else 40):
+            i += 1
+            ep = cs.new_ep()
+            ni, nf_, ne = rng.choice([(9, 0, 0), (12, 9, 0), (1, 12, 2), (25, 3, 1), (3, 30, 3), (8, 8, 2), (1, 9, 0)])
+            ip = "".join(rng.choice(digs) for _ in range(ni))
+            fp = "".join(rng.choice(digs) for _ in range(nf_))
+            xp = "".join(rng.choice(digs if hexa else "0123456789") for _ in range(ne))
+            base = ip + ("." + fp if nf_ else "") + ((chr(o["exp"]) + rng.choice(["", "+", "-"]) + xp) if ne else "")
+            variants = [base]
+            for _ in range(4):
+                b = list(base)
+                for _ in range(rng.choice([1, 1, 2, 3])):
+                    pos = rng.randrange(0, len(b) + 1)
+                    b.insert(pos, chr(sepc) * rng.choice([1, 1, 2]))
+                variants.append("".join(b))
+            for v in variants:
+                for ty in (("f64", "f32") if i % 2 else ("f64",)):
+                    cs.parse(ep, ty, f["id"], v, ["rf"], wo=True, opts=o, tag="long-separated")
+                    if not hexa and sepc == 95 and "_" not in v and not any(n in ("required_digits", "no_special") for (n, a) in f["calls"]):
+                        cs.parse(ep, ty, 0, v, ["rf"], wo=True, opts=o)
+                if ne == 0 and nf_ == 0:
+                    cs.parse(ep, "u128" if ni > 19 else "i64", f["id"], v, ["rf"], wo=True, opts=dict(PI_DEFAULT), tag="long-separated-int")
+            cs.parse(ep, "f64", f["id"], variants[-1], ["rf"], wo=True, opts=o, partial=True)
+    return cs, [model], {"input_families": cs.tags, "configurations": ["rf"]}
+
+
 PLANS = {"C01": plan_C01, "C02": plan_C02, "C03": plan_C03, "C04": plan_C04, "C05": plan_C05,
          "C06": plan_C06, "C07": plan_C07, "C08": plan_C08, "C09": plan_C09,
-         "C10": plan_C10, "C11": plan_C11, "C14": plan_C14, "C16": plan_C16, "C17": plan_C17, "C19": plan_C19}
+         "C10": plan_C10, "C11": plan_C11, "C12": plan_C12, "C13": plan_C13, "C14": plan_C14, "C16": plan_C16, "C17": plan_C17, "C19": plan_C19}
 
 
 ASSUME = {
